@@ -22,6 +22,9 @@ Definition set_str (s : store) (k : nat) (v : str) : store := mk_store (s_state 
 Definition set_num (s : store) (k : nat) (v : N) : store := mk_store (s_state s) (s_strs s) (set_nth (s_nums s) k v).
 Definition set_state (s : store) (v : nat) : store := mk_store v (s_strs s) (s_nums s).
 
+(* bool members are stored as numbers *)
+Definition b2n (b : bool) : N := if b then 1 else 0.
+
 (* character predicates the sources call *)
 Inductive cpred := PUpper | PBlank | PDigit | PXdigit | PEol | PToken | PCntrl | PAlpha.
 Definition cpred_eval (p : cpred) (c : byte) : bool :=
@@ -58,6 +61,7 @@ Inductive stmt :=
   | SState (v : nat)                         (* state_ = Enum::V *)
   | SNum (k : nat) (e : nexp)                (* member = e *)
   | SPush (k : nat) (e : nexp)               (* member.push_back(e) *)
+  | SClear (k : nat)                         (* member.clear() *)
   | SEval (e : nexp)                         (* an expression statement: ++member *)
   | SReturn (v : bool)
   | SBreak
@@ -109,6 +113,7 @@ Section Exec.
     | SState v => (ONormal, set_state s v)
     | SNum k e => let '(v, s1) := neval e s in (ONormal, set_num s1 k v)
     | SPush k e => let '(v, s1) := neval e s in (ONormal, set_str s1 k (snoc (get_str s1 k) v))
+    | SClear k => (ONormal, set_str s k [])
     | SEval e => let '(_, s1) := neval e s in (ONormal, s1)
     | SReturn v => (OReturn v, s)
     | SBreak => (OBreak, s)
